@@ -143,48 +143,59 @@ def run(ctx):
     tf = cr.fn("traverse_path::traverse_path_fast")
     tp = cr.fn("traverse_path::traverse_path")
     ck.analysed(tf, tp)
+    # the bit counter is the local multiplied by TRAVERSE_COST_PER_BIT in the cost terms (found by role, not by name)
+    import re as _re
+    bitctr = None
+    for b in tf.reachable_blocks():
+        for st in tf.stmts(b):
+            if "rv" in st:
+                m = _re.search(r"\((?:\()?(%[^ )]+)(?: as u64\))? Mul TRAVERSE_COST_PER_BIT\)", show(tf.denamed(tf.expr_rvalue(st["rv"], deep=False))))
+                if m:
+                    bitctr = m.group(1)
+    if bitctr is None:
+        raise mir.AnchorMissing("traverse_path_fast: no `<bits> * TRAVERSE_COST_PER_BIT` term found")
     consts = []
     for b in sorted(tf.reachable_blocks()):
         if tf.term(b)["k"] == "switch":
-            n = compare_norm(tf.switch_cond(b))
-            if n and list(n[0]) == ["num_bits"] and n[2] == "==0":
+            n = compare_norm(tf.denamed(tf.switch_cond(b)))
+            if n and list(n[0]) == [bitctr] and n[2] == "==0":
                 consts.append(-n[1])
     want = [c for c in consts if (c + 1) % 8 == 0]
     ck.ob("R05b", "traverse_path::traverse_path_fast|leading zero byte", sorted(consts) == sorted(want) and {7, 15, 23} <= set(consts),
           "the zero-byte surcharge applies exactly when the path's bit length (num_bits + 1) is a multiple of 8 (7, 15, 23[, 31])",
           site=tf.where(0), detail={"constants compared with num_bits": sorted(consts)})
     # the surcharge is TRAVERSE_COST_PER_ZERO_BYTE and the per-bit term is num_bits * PER_BIT
-    txt = []
-    cl = tf.local_by_name("cost")
-    for s in tf.defs(cl[0]) if cl else []:
-        txt.append(show(tf.expr_rvalue(tf.def_rvalue(s), deep=False)))
-    ck.ob("R05b", "traverse_path::traverse_path_fast|terms",
-          sorted(txt) == sorted(["(TRAVERSE_BASE_COST Add TRAVERSE_COST_PER_BIT)", "(cost Add (num_bits Mul TRAVERSE_COST_PER_BIT))",
-                                 "(cost Add TRAVERSE_COST_PER_ZERO_BYTE)"]),
-          "inline lookup charges base + per-bit + num_bits * per-bit (+ one zero-byte surcharge)", site=tf.where(0), detail=txt)
-    txt2 = []
-    cl = tp.local_by_name("cost")
-    for s in tp.defs(cl[0]) if cl else []:
-        txt2.append(show(tp.expr_rvalue(tp.def_rvalue(s), deep=False)))
-    ck.ob("R05b", "traverse_path::traverse_path|terms",
-          sorted(txt2) == sorted(["((TRAVERSE_BASE_COST Add ((first_bit_byte_index as u64) Mul TRAVERSE_COST_PER_ZERO_BYTE)) Add TRAVERSE_COST_PER_BIT)",
-                                  "(cost Add TRAVERSE_COST_PER_BIT)"]),
-          "generic lookup charges base + zero bytes * per-zero-byte + per-bit, then per-bit per step", site=tp.where(0), detail=txt2)
-    # both choose `right` when the bit is set
-    for g in (tf, tp):
-        sel = []
+    def cost_terms(g):
+        """the updates of the cost accumulator (the u64 local returned in Reduction(cost, ..)), names removed"""
+        acc = None
         for b in g.reachable_blocks():
-            if g.term(b)["k"] == "switch":
-                e = strip(g.expr_op(g.term(b)["on"], deep=False))
-                if e[0] in ("var", "named") and g.local_name(e[2]) == "is_bit_set":
-                    be = g.bool_edges(b)
-                    for edge, nm in ((be[0], "set"), (be[1], "clear")):
-                        for st in g.stmts(edge):
-                            if st.get("d") and "rv" in st:
-                                v = show(g.expr_rvalue(st["rv"], deep=False))
-                                if v in ("left", "right"):
-                                    sel.append((nm, v))
-        ck.ob("R05b", g.path + "|direction", sorted(sel) == [("clear", "left"), ("set", "right")], "a set bit selects the right child, a clear bit the left",
+            for st in g.stmts(b):
+                rv = st.get("rv", {})
+                if "agg" in rv and isinstance(rv["agg"][0], dict) and rv["agg"][0].get("adt", "").endswith("Reduction"):
+                    pl = mir.op_place(rv["agg"][1][0])
+                    if pl and not pl["p"]:
+                        l = pl["l"]
+                        # follow a plain copy back to the accumulator
+                        while len(g.defs(l)) == 1 and g.defs(l)[0][1] != "T" and "use" in g.def_rvalue(g.defs(l)[0]) and mir.op_place(g.def_rvalue(g.defs(l)[0])["use"]):
+                            l = mir.op_place(g.def_rvalue(g.defs(l)[0])["use"])["l"]
+                        acc = l
+        if acc is None:
+            raise mir.AnchorMissing(f"{g.path}: cost accumulator (first field of the returned Reduction) not found")
+        return sorted(show(g.denamed(g.expr_rvalue(g.def_rvalue(d_)), keep={acc: "COST"})) for d_ in g.defs(acc) if d_[1] != "T")
+    txt = cost_terms(tf)
+    ck.ob("R05b", "traverse_path::traverse_path_fast|terms",
+          txt == sorted(["(TRAVERSE_BASE_COST Add TRAVERSE_COST_PER_BIT)", f"(COST Add ({bitctr} Mul TRAVERSE_COST_PER_BIT))",
+                         "(COST Add TRAVERSE_COST_PER_ZERO_BYTE)"]),
+          "inline lookup charges base + per-bit + num_bits * per-bit (+ one zero-byte surcharge)", site=tf.where(0), detail=txt)
+    txt2 = cost_terms(tp)
+    ck.ob("R05b", "traverse_path::traverse_path|terms",
+          txt2 == sorted(["((TRAVERSE_BASE_COST Add ((traverse_path::first_non_zero(&$2) as u64) Mul TRAVERSE_COST_PER_ZERO_BYTE)) Add TRAVERSE_COST_PER_BIT)",
+                          "(COST Add TRAVERSE_COST_PER_BIT)"]),
+          "generic lookup charges base + zero bytes * per-zero-byte + per-bit, then per-bit per step", site=tp.where(0), detail=txt2)
+    # both choose `right` when the bit is set (decided from the expressions, independent of local names)
+    for g in (tf, tp):
+        sel = g.bit_direction()
+        ck.ob("R05b", g.path + "|direction", sel == [("clear", "left"), ("set", "right")], "a set bit selects the right child, a clear bit the left",
               site=g.where(0), detail=sel)
     # add / subtract fast paths
     ca, cs_ = cr.fn("more_ops::op_add::{closure#0}"), cr.fn("more_ops::op_subtract::{closure#0}")
@@ -261,29 +272,26 @@ def run(ctx):
             bad.append(n)
     ck.ob("R05d", "more_ops::PRECOMPUTED_HASHES", len(rows) >= 2 and not bad, f"all {len(rows)} rows equal sha256(01 || minimal encoding of the row index)",
           detail={"rows": len(rows), "wrong rows": bad})
+    # the table is only indexed in bounds: decided by the in-bounds verifier (lib/bounds.py) on every indexing site of
+    # the two users whose length is the table's (an access through .get() cannot be out of range)
+    from lib.bounds import Prover
     for p in ("more_ops::op_sha256", "treehash::tree_hash_costed"):
         g = cr.fn(p)
         ck.analysed(g)
-        guards = []
-        for b in sorted(g.reachable_blocks()):
-            if g.term(b)["k"] == "switch":
-                e = strip(g.switch_cond(b))
-                # (val as usize) < PRECOMPUTED_HASHES.len()
-                if e[0] == "bin" and e[1] == "Lt" and any(x[0] == "bytes" and x[1] == tbl.get("bytes") for x in walk(e[3])) \
-                        and any(x[0] == "call" and x[1].endswith("::len") for x in walk(e[3])) \
-                        and not any(x[0] == "bytes" for x in walk(e[2])):
-                    guards.append(b)
-        idx = []
-        for b in g.reachable_blocks():
-            if b in guards or any(b in g.dominators(gb) for gb in guards):
-                continue
-            for st in g.stmts(b):
-                ops = mir.rvalue_operands(st["rv"]) if "rv" in st else []
-                if any(isinstance(o, dict) and "c" in o and o["c"].get("bytes") == tbl.get("bytes") for o in ops):
-                    idx.append(b)
-        ok = bool(guards) and bool(idx) and all(any(g.dominates(g.bool_edges(gb)[0], ib) for gb in guards) for ib in idx)
-        ck.ob("R05d", p + "|index guard", ok, f"the table is indexed only under val < {len(rows)}", site=g.where(idx[0]) if idx else g.where(0),
-              detail={"guards": len(guards), "index sites": len(idx)})
+        pr = Prover(g, cr)
+        sites = 0
+        bad = []
+        for bb, _ in pr.sites():
+            for text, okk, lin, how in pr.check_site(bb)["goals"]:
+                if text.endswith(f" < {len(rows)}"):
+                    sites += 1
+                    if not okk:
+                        bad.append(text)
+        gets = [bb for bb, t in g.calls() if (t.get("callee") or "").endswith("::get") and t["args"]
+                and any(x[0] == "bytes" and x[1] == tbl.get("bytes") for x in walk(g.expr_op(t["args"][0])))]
+        ck.ob("R05d", p + "|index guard", not bad and (sites + len(gets)) >= 1,
+              f"every indexing of the table is proved to be below {len(rows)} (or goes through .get())", site=g.where(0),
+              detail={"indexing sites": sites, "get() accesses": len(gets), "unproved": bad})
 
     # ---------------------------------------------------------------- R05c / R05e  (config differences)
     dgr = gate_ranges(ctx, r'feature\s*=\s*"(counters|pre-eval)"')
